@@ -348,6 +348,41 @@ def run(ctx: Ctx, rs: RuleSet, tier: str):
            'configuration keeps tags the target does not have',
            ctx.loc(uc, bad[0] if bad else uc.node))
 
+  # ---- only values that can be edited in place are aligned when unequal
+  rule_a = 'AGREE.alignable-types'
+  rs.declare(rule_a, 'unequal values are aligned only if their type supports '
+             'in-place edits (list, dict, Buildable); the automatic and the '
+             'explicit alignment check agree', 2)
+  MUTABLE = {'list', 'dict', 'config_lib.Buildable', 'Buildable'}
+  exempt = {}
+  for q in (f'{D}.DiffAlignment.can_align',
+            f'{D}.DiffAlignment._validate_alignment'):
+    f = ctx.func(q)
+    found = None
+    for n in walk_function(f.node):
+      if isinstance(n, ast.If):
+        for c in ast.walk(n.test):
+          if isinstance(c, ast.Call) and unparse(c.func) == 'isinstance' and len(
+              c.args) == 2 and isinstance(c.args[1], ast.Tuple) and any(
+                  isinstance(x, ast.Compare) and isinstance(
+                      x.ops[0], ast.NotEq) for x in ast.walk(n.test)):
+            found = [unparse(e) for e in c.args[1].elts]
+    if found is None:
+      raise AnalysisError(f'{q}: equality exemption list not found')
+    exempt[q] = found
+    bad = [t for t in found if t not in MUTABLE]
+    rs.check(not bad, rule_a, q,
+             f'aligned without being equal: {found}' if not bad else
+             f'values of type {bad} are aligned although they differ, but '
+             'cannot be edited in place: build_diff emits ModifyValue on an '
+             'element (`.a[1]`) and apply_diff raises TypeError (\'tuple\' '
+             'object does not support item assignment)', ctx.loc(f, f.node))
+  vals = list(exempt.values())
+  rs.check(len(vals) == 2 and sorted(vals[0]) == sorted(vals[1]), rule_a,
+           f'{D}.DiffAlignment:siblings',
+           f'can_align and _validate_alignment use the same list {vals[0]}',
+           '', nontrivial=False)
+
   # ---- memoizable values are "equal" only if aligned
   rule = 'DOM.aligned-or-equal'
   rs.declare(rule, 'for memoizable values only the alignment decides; '
